@@ -6,7 +6,19 @@ import sys
 
 HERE = os.path.dirname(os.path.dirname(os.path.abspath(__file__)))
 pid, wt = sys.argv[1], sys.argv[2]
-n = int(sys.argv[3]) if len(sys.argv) > 3 else 3
+n = int(sys.argv[3]) if len(sys.argv) > 3 and sys.argv[3].isdigit() else 3
+TRIED = ""
+if "--tried" in sys.argv:
+    # round 4 onwards: tell the author what earlier rounds already did, so the round looks for other mechanisms
+    import glob
+    titles = []
+    for m in sorted(glob.glob(os.path.join(HERE, "seeded", pid + "-*", "meta.json"))):
+        titles.append(json.load(open(m)).get("title", ""))
+    TRIED = ("ALREADY TRIED BY OTHERS — choose different mechanisms and different trigger conditions than these "
+             "(do not produce variations of them):\n" + "".join(f"  - {t}\n" for t in titles if t) +
+             "\nLook for places those ideas do not touch: other functions and entry points named in the property, "
+             "other clauses of the statement, other option values, error paths, numeric edge regions, interactions "
+             "between two options, and the C/C++ sources.\n\n")
 p = [json.loads(l) for l in open(os.path.join(HERE, "properties.jsonl")) if json.loads(l)["id"] == pid][0]
 
 print(f"""You are testing how well a verification effort can detect subtle bugs. Your job: write {n} DIFFERENT
@@ -47,7 +59,7 @@ WHAT MAKES A GOOD SEEDED CHANGE
   triggers that a random test with "typical" inputs would hit less than once in a few thousand cases.
 * Do not touch the tests. Do not add new files to the library. No comments that give the bug away.
 
-DELIVERABLE — for each change k = 1..{n} a directory {wt}-out/m{{k}}/ containing:
+{TRIED}DELIVERABLE — for each change k = 1..{n} a directory {wt}-out/m{{k}}/ containing:
 * patch.diff — `git -C {wt} diff` of exactly that one change against the clean HEAD (apply-able with `git apply`).
 * demo.py — a small self-contained program (uses only numpy/scipy/stdlib + esutil imported from PYTHONPATH) that
   exits 0 on the unchanged library and exits non-zero (assertion failure) with the change applied. It must exercise
